@@ -125,6 +125,8 @@ pub fn kitchen_sink_frag(variant: u32) -> Movie {
         trun_version: 1,
         lead: (variant % 3) as u8,
         samples,
+        has_trun: true,
+        trun_size: true,
     };
     m.frags = vec![
         Fragment { seq: 1, mdat_first: false, trafs: vec![traf(0, BaseMode::DefaultBaseIsMoof, true, false, vec![s(4, 10, 0), s(5, 11, -3)]), traf(1, BaseMode::Explicit, false, true, vec![s(3, 0, 0)])] },
@@ -132,6 +134,27 @@ pub fn kitchen_sink_frag(variant: u32) -> Movie {
     ];
     m.mehd = Some(((variant % 2) as u8, 12345));
     m.emsg = Some((variant % 2) as u8);
+    if variant >= 3 {
+        // robustness shapes: a second traf of the same track in one moof, a traf without trun, and
+        // runs with every other combination of per-sample fields (no sizes: default size applies)
+        let mut extra = traf(0, BaseMode::DefaultBaseIsMoof, variant % 2 == 0, false, vec![s(3, 4, 0), s(3, 4, 1)]);
+        extra.trun_size = variant % 4 == 3;
+        extra.trun_cts = variant % 3 != 0;
+        extra.trun_flags = variant % 5 == 0;
+        extra.trun_first_flags = None;
+        extra.tfhd_size = Some(3);
+        m.frags[0].trafs.push(extra);
+        let mut empty = traf(1, BaseMode::DefaultBaseIsMoof, false, false, vec![]);
+        empty.has_trun = false;
+        m.frags[1].trafs.push(empty);
+        let mut cts_only = traf(0, BaseMode::DefaultBaseIsMoof, false, true, vec![s(2, 1, 5), s(2, 1, 6), s(2, 1, 7)]);
+        cts_only.trun_size = false;
+        cts_only.trun_cts = true;
+        cts_only.trun_flags = false;
+        cts_only.trun_first_flags = None;
+        cts_only.tfhd_size = Some(2);
+        m.frags.push(Fragment { seq: 3, mdat_first: false, trafs: vec![cts_only] });
+    }
     m
 }
 
@@ -141,6 +164,9 @@ pub fn bases(ctx: &Ctx, n_generated: usize) -> Vec<Base> {
         out.push(mk_base(format!("sink{}", v), build(&kitchen_sink(v)).bytes, false));
     }
     for v in 0..2 {
+        out.push(mk_base(format!("sinkfrag{}", v), build(&kitchen_sink_frag(v)).bytes, false));
+    }
+    for v in 3..7 {
         out.push(mk_base(format!("sinkfrag{}", v), build(&kitchen_sink_frag(v)).bytes, false));
     }
     // media segment only
@@ -240,7 +266,7 @@ fn fname(f: &Field) -> String {
 }
 
 /// Enumerated stages. `weight(kind)` lets a property focus on some field kinds (0 = skip).
-pub fn run_enumerated(ctx: &mut Ctx, bases: &[Base], weight: &dyn Fn(FieldKind) -> u32, mut each: impl FnMut(&mut Ctx, &AdvCase)) {
+pub fn run_enumerated(ctx: &mut Ctx, bases: &[Base], weight: &dyn Fn(FieldKind) -> u32, chain_r: usize, mut each: impl FnMut(&mut Ctx, &AdvCase)) {
     // ---- single substitution: exhaustive ----
     ctx.stage("single");
     let mut idx = 0u64;
@@ -448,6 +474,95 @@ pub fn run_enumerated(ctx: &mut Ctx, bases: &[Base], weight: &dyn Fn(FieldKind) 
         }
     }
     ctx.extra.insert("surgery_cases".into(), serde_json::json!(idx));
+    // ---- oversize-child chains (super-linear work): r sibling copies of a container, cut right after
+    // the header of its last child, whose size is stretched over all later copies up to the shared
+    // original payload of that child. The size guards reject the first copy; a weakened guard lets
+    // every copy re-scan the rest of the chain (quadratic work on a linear-size input).
+    ctx.stage("chains");
+    let r = chain_r.max(2);
+    let mut idx = 0u64;
+    for (bi, b) in bases.iter().enumerate() {
+        if !(b.name == "sink0" || b.name == "sinkfrag0" || b.name == "sink1") {
+            continue;
+        }
+        let mut flat: Vec<(Vec<&PBox>, &PBox)> = Vec::new();
+        fn collect<'a>(boxes: &'a [PBox], anc: &mut Vec<&'a PBox>, out: &mut Vec<(Vec<&'a PBox>, &'a PBox)>) {
+            for pb in boxes {
+                out.push((anc.clone(), pb));
+                anc.push(pb);
+                collect(&pb.children, anc, out);
+                anc.pop();
+            }
+        }
+        collect(&b.boxes, &mut Vec::new(), &mut flat);
+        for (anc, c) in &flat {
+            if c.header != 8 || c.prefix != 0 || !matches!(&c.typ[..], b"moov" | b"trak" | b"mdia" | b"minf" | b"moof") {
+                continue;
+            }
+            for k in c.children.iter().filter(|k| k.header == 8 && !k.children.is_empty() && matches!(&k.typ[..], b"trak" | b"mdia" | b"minf" | b"stbl" | b"traf" | b"udta" | b"mvex")) {
+                let my = idx;
+                idx += 1;
+                if !ctx.enter(my) {
+                    continue;
+                }
+                let (cs, ce, ks, ke) = (c.start, c.end(), k.start, k.end());
+                // smallest valid copy of the container: its header, 8-byte stubs for required
+                // fixed-layout children (their decoders read past the declared size and then seek back
+                // to it), complete copies of the required children that check their size, and the
+                // header of the stretched child
+                let mut prefix: Vec<u8> = b.bytes[cs..cs + 8].to_vec();
+                for x in &c.children {
+                    if x.start == k.start {
+                        break;
+                    }
+                    match &x.typ[..] {
+                        b"mvhd" | b"tkhd" | b"mdhd" | b"mfhd" => {
+                            prefix.extend_from_slice(&8u32.to_be_bytes());
+                            prefix.extend_from_slice(&x.typ);
+                        }
+                        b"hdlr" | b"dinf" => prefix.extend_from_slice(&b.bytes[x.start..x.end()]),
+                        _ => {}
+                    }
+                }
+                let k_rel = prefix.len();
+                prefix.extend_from_slice(&b.bytes[ks..ks + 8]);
+                let k_payload = &b.bytes[ks + 8..ke];
+                let plen = prefix.len();
+                let chain_len = plen * r + k_payload.len();
+                let mut out: Vec<u8> = Vec::with_capacity(b.bytes.len() + 2 * chain_len + 16);
+                out.extend_from_slice(&b.bytes[..cs]);
+                for i in 0..r {
+                    let at = out.len();
+                    out.extend_from_slice(&prefix);
+                    // container ends right after the header of its stretched child
+                    out[at..at + 4].copy_from_slice(&(plen as u32).to_be_bytes());
+                    let k_at = at + k_rel;
+                    let k_size = chain_len - (i * plen + k_rel);
+                    out[k_at..k_at + 4].copy_from_slice(&(k_size as u32).to_be_bytes());
+                }
+                out.extend_from_slice(k_payload);
+                out.extend_from_slice(&b.bytes[ce..]);
+                let delta = chain_len as i64 - (ce - cs) as i64;
+                for a in anc {
+                    if a.header == 8 {
+                        let cur = u32::from_be_bytes(out[a.start..a.start + 4].try_into().unwrap()) as i64;
+                        out[a.start..a.start + 4].copy_from_slice(&((cur + delta).max(0) as u32).to_be_bytes());
+                    }
+                }
+                // padding in front, so that the chain lies in the second half of the file (a guard that
+                // compares a size with an absolute offset only lets oversize children through there)
+                let top_start = anc.first().map(|a| a.start).unwrap_or(cs);
+                let mut pad: Vec<u8> = Vec::with_capacity(chain_len + 8);
+                pad.extend_from_slice(&((chain_len + 8) as u32).to_be_bytes());
+                pad.extend_from_slice(b"free");
+                pad.resize(chain_len + 8, 0);
+                out.splice(top_start..top_start, pad);
+                each(ctx, &AdvCase { bytes: out, desc: format!("{}: chain of {} minimal {} boxes whose child {} is stretched over the rest of the chain (copy = {} bytes)", b.name, r, c.name(), k.name(), plen), touched: vec![FieldKind::Size], base: bi });
+            }
+        }
+    }
+    ctx.extra.insert("chain_cases".into(), serde_json::json!(idx));
+    ctx.extra.insert("chain_length".into(), serde_json::json!(r));
     // ---- prefixes of a few files ----
     ctx.stage("prefixes");
     let mut idx = 0u64;
